@@ -364,7 +364,7 @@ ATOMS = ['1', "'a'", 'null', 'true', '2.5',
          '[1, 2].select($ + 1)', '[1, 2, 3].where($ > 1)', 'range(3)', '[1, 2].skip(1)', '[3, 1].limit(1)',
          '[1, 2].zip([3, 4])', '[1, 1, 2].distinct()', '[1, 2].accumulate($1 + $2)', '[1, 2].reverse()',
          '[1].concat([2])', '[1].append(2)', '[[1], [2, [3]]].flatten()', '[1, 2].selectMany([$, $])',
-         '[1, 2, 3].slice(2)', '[1, 2, 3].splitWhere($ = 2)', '[1, 2].cycle().limit(3)', 'repeat(1, 2)',
+         '[1, 2, 3].slice(2)', '[1, 2, 3].splitWhere($ = 2)', '[1, 2].cycle().limit(3)', '1.repeat(2)',
          'generate(1, $ < 4, $ + 1)', 'range(3).memorize()', '[1, 2].enumerate()', '[1,2,3].sliceWhere($ > 1)',
          '[1, 2].zipLongest([3])', '[1, 2].takeWhile($ < 2)', '[1, 2].skipWhile($ < 2)',
          'generateMany(1, [$ + 1].where($ < 4))', '[1, 2].defaultIfEmpty([3])', 'range(2).defaultIfEmpty([3])',
@@ -453,8 +453,10 @@ def judge(res, case, raw_j, out, model, t2l, s2l, lim, hist):
         kind, desc = out[1], out[2]
         hist['real:' + kind] = hist.get('real:' + kind, 0) + 1
         if kind == 'unhashable-finalize' and not clean:
-            res.fail('oracle', 'unhashable-in-hash-position',
-                     'finalisation of %s fails under %s: %s' % (show(raw_j), tag, desc), case)
+            hist['known:K1'] = hist.get('known:K1', 0) + 1
+            if hist['known:K1'] <= 3:
+                res.fail('oracle', 'unhashable-in-hash-position',
+                         'finalisation of %s fails under %s: %s' % (show(raw_j), tag, desc), case)
         elif kind == 'tooLarge' and not bounded:
             pass            # refusing an oversized collection is what C08 asks for
         else:
@@ -486,6 +488,7 @@ def judge(res, case, raw_j, out, model, t2l, s2l, lim, hist):
         return False
     exp = py_rename(raw_j, t2l, s2l)
     if not matches(py_rename_marked(raw_j, t2l, s2l), rj):
+        case = dict(case, prio=0 if clean else 1)       # report first a case whose expectation is satisfiable
         res.fail('oracle', 'wrong-result', 'finalising %s under %s gave %s, expected the same content in canonical '
                  'container types %s' % (show(raw_j), tag, show(rj), show(exp)), case)
         return False
@@ -525,6 +528,11 @@ def run_case(real, drv, res, case, hist):
                 hist['expr:eval-error'] = hist.get('expr:eval-error', 0) + 1
                 hist.setdefault('expr_errors', {})
                 hist['expr_errors'][type(e).__name__] = hist['expr_errors'].get(type(e).__name__, 0) + 1
+                if isinstance(e, (yexc.NoFunctionRegisteredException, yexc.NoMatchingFunctionException,
+                                  yexc.NoMatchingMethodException, yexc.NoMethodRegisteredException)):
+                    hist.setdefault('expr_unresolved', [])
+                    if len(hist['expr_unresolved']) < 5:
+                        hist['expr_unresolved'].append('%s: %s' % (case['expr'], e))
                 return None
             out = run_real(real, case['expr'], None, t2l, s2l, lim, True)
             reqs.append({'op': 'out', 't2l': t2l, 's2l': s2l, 'lim': lim, 'v': raw_j})
@@ -688,7 +696,7 @@ def run(env, res):
         except Exception:
             common.log(traceback.format_exc())
     # a known finding must not hide other failures: order so that violations come first
-    res.failures.sort(key=lambda f: f.key in known)
+    res.failures.sort(key=lambda f: (f.key in known, f.replay.get('prio', 0)))
     res.extra['histogram'] = hist
     res.extra['container_kinds_generated'] = kinds
     res.extra['expressions_evaluated'] = evaluated
